@@ -309,35 +309,43 @@ def cleanup_shm(path=None, pid=None):
 
 
 class FileDb:
-    """a fresh WAL-mode file database + engine (timeout=0) + independent
-    observer connection (timeout=0, autocommit) used for external committed
-    writes"""
+    """a fresh WAL-mode file database per replay, reached through ONE Engine
+    per (world, process) (one dialect -> the compiled-statement cache stays
+    warm): StaticPool + creator that connects to the current path with
+    ``timeout=0, autocommit=False``; plus an independent observer connection
+    (autocommit, ``timeout=0``) that performs the external committed writes."""
 
+    _engines = {}
     _n = 0
 
-    def __init__(self, w, rows):
+    def __init__(self, w, init_sql):
         FileDb._n += 1
+        self.w = w
         self.path = os.path.join(shm_dir(), "db%d.sqlite" % FileDb._n)
-        for suf in ("", "-wal", "-shm"):
-            if os.path.exists(self.path + suf):
-                os.unlink(self.path + suf)
+        self._rm()
         boot = sqlite3.connect(self.path, timeout=0, isolation_level=None)
         boot.execute("PRAGMA journal_mode=WAL")
         boot.execute("PRAGMA synchronous=OFF")
+        w.memory_engine()  # renders w._ddl once (and drops its :memory: db)
+        boot.executescript("BEGIN;\n" + w._ddl + ";\n" + init_sql + ";\nCOMMIT;")
         boot.close()
-        self.engine = create_engine(
-            "sqlite:///" + self.path, connect_args={"timeout": 0, "autocommit": False}
-        )
-        w.metadata.create_all(self.engine)
-        with self.engine.begin() as conn:
-            for table, rs in rows.items():
-                if rs:
-                    conn.execute(w.metadata.tables[table].insert(), rs)
+        ent = FileDb._engines.get(w.key)
+        if ent is None:
+            holder = {"path": self.path}
+
+            def creator():
+                return sqlite3.connect(holder["path"], timeout=0, autocommit=False, check_same_thread=False)
+
+            eng = create_engine("sqlite://", poolclass=StaticPool, creator=creator)
+            ent = FileDb._engines[w.key] = (eng, holder)
+        self.engine, holder = ent
+        self.engine.dispose()
+        holder["path"] = self.path
         self.observer = sqlite3.connect(self.path, timeout=0, isolation_level=None)
 
     def external(self, sql, params=()):
-        """one committed write from outside; returns True, or False when SQLite
-        refused (the session holds the write lock) - an environment answer"""
+        """one committed write from outside; True, or False when SQLite
+        refused it (the session holds the write lock) - an environment answer"""
         try:
             self.observer.execute(sql, params)
             return True
@@ -349,16 +357,19 @@ class FileDb:
     def committed(self, sql, params=()):
         return self.observer.execute(sql, params).fetchall()
 
+    def _rm(self):
+        for suf in ("", "-wal", "-shm"):
+            try:
+                os.unlink(self.path + suf)
+            except FileNotFoundError:
+                pass
+
     def close(self):
         try:
             self.observer.close()
         finally:
             self.engine.dispose()
-            for suf in ("", "-wal", "-shm"):
-                try:
-                    os.unlink(self.path + suf)
-                except FileNotFoundError:
-                    pass
+            self._rm()
 
 
 __all__ = ["world", "World", "SqlLog", "FileDb", "Session", "shm_dir", "cleanup_shm"]
